@@ -31,6 +31,10 @@ def strip_comments(src):
     return re.sub(r'--.*', '', src)
 
 
+# further modules whose theorems live in the property's namespace (they import the property's own file)
+EXTRA_MODULES = {'C09': ['Klepto.Props.PosOnly'], 'C10': ['Klepto.Props.PosOnly'], 'C19': ['Klepto.Props.PosOnly'], 'C01': []}
+
+
 def lean_side(prop, tier):
     """build the property's theorem file, audit axioms, grep for forbidden constructs.
     returns dict(ok, obligations, discharged, theorems, problems, wall)"""
@@ -40,7 +44,8 @@ def lean_side(prop, tier):
     if not os.path.exists(os.path.join(LEAN, 'Klepto', 'Props', prop + '.lean')):
         res['problems'].append('no theorem file for %s' % prop)
         return res
-    ok, out, _ = lake_build((target, 'driver'))
+    extra = EXTRA_MODULES.get(prop, [])
+    ok, out, _ = lake_build((target, 'driver') + tuple(extra))
     if not ok:
         res['problems'].append('lake build %s failed' % target)
         res['build_log'] = out[-4000:]
@@ -57,7 +62,7 @@ def lean_side(prop, tier):
     os.makedirs(OUT, exist_ok=True)
     af = os.path.join(OUT, 'audit_%s.lean' % prop)
     with open(af, 'w') as f:
-        f.write('import Klepto.Audit\nimport %s\n#eval Klepto.auditNamespace `Klepto.%s\n' % (target, prop))
+        f.write('import Klepto.Audit\nimport %s\n%s#eval Klepto.auditNamespace `Klepto.%s\n' % (target, ''.join('import %s\n' % m for m in extra), prop))
     p = subprocess.run(['lake', 'env', 'lean', af], cwd=LEAN, stdout=subprocess.PIPE, stderr=subprocess.STDOUT, text=True, timeout=900)
     if p.returncode != 0:
         res['problems'].append('audit failed: ' + p.stdout[-1500:])
@@ -76,7 +81,7 @@ def lean_side(prop, tier):
     if res['obligations'] == 0:
         res['problems'].append('no theorems found in namespace Klepto.%s' % prop)
     if tier == 'thorough':
-        p = subprocess.run(['lake', 'env', 'leanchecker', target], cwd=LEAN, stdout=subprocess.PIPE, stderr=subprocess.STDOUT, text=True, timeout=3000)
+        p = subprocess.run(['lake', 'env', 'leanchecker', target] + extra, cwd=LEAN, stdout=subprocess.PIPE, stderr=subprocess.STDOUT, text=True, timeout=3000)
         res['leanchecker'] = p.returncode
         if p.returncode != 0:
             res['problems'].append('leanchecker rejected %s: %s' % (target, p.stdout[-800:]))
